@@ -4,6 +4,6 @@ CONSTANTS
   WordSize = 32
   Dims <- DimsNone
   NDense = 1
-  MaxP = 3
+  MaxP = 4
 INVARIANTS SolverLemmas SolutionLemma
 CHECK_DEADLOCK FALSE
